@@ -1,6 +1,7 @@
 package vc
 
 import (
+	"regexp"
 	"path/filepath"
 	"fmt"
 	"go/types"
@@ -311,6 +312,7 @@ func (f *frame) contractCall(callee *ssa.Function, spec *FuncSpec, args []Val, i
 		t := vc.evalSpec(env, c.Expr)
 		vc.obligeIn(f, "call-requires", fmt.Sprintf("%s.%d", name, c.Idx), in, t.T, site.Pos(), "precondition of "+name+": "+c.Text)
 	}
+	f.checkCallbackContracts(callee, site, in)
 	// frame
 	if spec.HasAssign {
 		pats := vc.assignPats(env, spec.Assigns)
@@ -360,6 +362,10 @@ func (f *frame) contractCall(callee *ssa.Function, spec *FuncSpec, args []Val, i
 	for _, c := range vc.expandForeach(spec, post) {
 		t := vc.evalSpec(post, c.Expr)
 		vc.assume(in, t.T)
+	}
+	if len(vc.stateAxioms) > 0 && !spec.Trusted {
+		// the objects this call allocated are complete now
+		vc.assumeStateAxioms(f.fn, st, pre.Top, in)
 	}
 	return res
 }
@@ -592,7 +598,7 @@ func (f *frame) execAppend(x *ssa.Call, args []Val, in string, st *State) {
 		h := st.H[lf.sort]
 		src := applySteps(App("at_", s.T, "i!"), lf.steps)
 		dst := applySteps(App("at_", rFresh, "i!"), lf.steps)
-		vc.assume(And(in, Not(fits)), fmt.Sprintf("(forall ((i! Int)) (! (=> (and (<= 0 i!) (< i! %s)) (= (select %s %s) (select %s %s))) :pattern ((at_ %s i!))))", slen, h, dst, h, src, rFresh))
+		vc.assume(And(in, Not(fits)), fmt.Sprintf("(forall ((i! Int)) (! (=> (and (<= 0 i!) (< i! %s)) (= (select %s %s) (select %s %s))) :pattern ((at_ %s i!)) :pattern ((at_ %s i!))))", slen, h, dst, h, src, rFresh, s.T))
 	}
 	// now write the appended elements at r[len(s)+j]
 	k, constLen := f.constSliceLen(x.Call.Args[1])
@@ -611,7 +617,11 @@ func (f *frame) execAppend(x *ssa.Call, args []Val, in string, st *State) {
 	}
 	// general case: havoc the target range
 	if f.inDeclLoop(x.Block()) {
-		vc.unsupported("append of a slice of unknown length inside a loop with a declared assigns frame")
+		// every cell of the written range r[len(s) .. newLen) must lie inside the
+		// declared frame: checked for an arbitrary index of that range
+		xk := vc.fresh(f.prefix+x.Name()+"_appidx", "Int")
+		vc.assume(in, And(App("<=", slen, xk), App("<", xk, newLen)))
+		f.checkWrite(x.Block(), App("at_", r, xk), et, in, x.Pos(), "append:"+vc.anchorAt(f.fn, x.Pos(), "call"))
 	}
 	pre := st.Clone()
 	newH := f.bulkHeaps(st, pre, et, "app", func(lf leaf) string {
@@ -634,6 +644,13 @@ func (f *frame) execAppend(x *ssa.Call, args []Val, in string, st *State) {
 			srcv = App("select", old, applySteps(App("at_", t.T, App("-", "x!", slen)), lf.steps))
 		}
 		vc.assume(in, fmt.Sprintf("(forall ((x! Int)) (! (=> (and (<= %s x!) (< x! %s)) (= (select %s %s) %s)) :pattern ((at_ %s x!))))", slen, newLen, h, dst, srcv, r))
+		if !tIsStr {
+			// the same, indexed by the source element (so that a fact about t[j]
+			// yields the fact about r[len(s)+j])
+			dstj := applySteps(App("at_", r, App("+", slen, "j!")), lf.steps)
+			srcj := App("select", old, applySteps(App("at_", t.T, "j!"), lf.steps))
+			vc.assume(in, fmt.Sprintf("(forall ((j! Int)) (! (=> (and (<= 0 j!) (< j! %s)) (= (select %s %s) %s)) :pattern ((at_ %s j!))))", tlen, h, dstj, srcj, t.T))
+		}
 	}
 }
 
@@ -832,6 +849,13 @@ func (vc *VC) calleeSpec(name string) *FuncSpec {
 			return s
 		}
 	}
+	// a contract restricted to the function under verification wins over the
+	// unrestricted one
+	for _, s := range vc.Eng.Spec.Alt[name] {
+		if s.Flags["only_for"] != "" && vc.specAppliesHere(s) {
+			return s
+		}
+	}
 	if s := vc.Eng.Spec.Funcs[name]; s != nil && vc.specAppliesHere(s) {
 		return s
 	}
@@ -841,4 +865,111 @@ func (vc *VC) calleeSpec(name string) *FuncSpec {
 		}
 	}
 	return nil
+}
+
+// checkCallbackContracts: the callee's contract relies on a contract of one of
+// its function-typed parameters ("<callee>.<param>(names)"); when the argument
+// is a named function, that function's own contract must provide it: every
+// ensures clause of the parameter contract must be, after renaming the
+// parameters positionally, an ensures clause of the function; every requires
+// clause of the function must be a requires clause of the parameter contract;
+// and a parameter contract that assigns nothing needs a function that assigns
+// nothing. (Textual subsumption: sufficient, not complete.)
+func (f *frame) checkCallbackContracts(callee *ssa.Function, site ssa.Instruction, in string) {
+	vc := f.vc
+	ci, ok := site.(ssa.CallInstruction)
+	if !ok || !f.top {
+		return
+	}
+	args := ci.Common().Args
+	params := callee.Params
+	if len(callee.FreeVars) > 0 {
+		return
+	}
+	for i, p := range params {
+		if i >= len(args) {
+			break
+		}
+		if _, isSig := p.Type().Underlying().(*types.Signature); !isSig {
+			continue
+		}
+		key := FuncName(callee) + "." + p.Name()
+		want := vc.Eng.Spec.Funcs[key]
+		if want == nil {
+			continue
+		}
+		av := args[i]
+		if ct, isCT := av.(*ssa.ChangeType); isCT {
+			av = ct.X
+		}
+		fn, isFn := av.(*ssa.Function)
+		if !isFn {
+			if par, isPar := av.(*ssa.Parameter); isPar {
+				// the caller passes on its own function-typed parameter: that
+				// parameter's contract must provide what the callee's needs
+				if have := vc.Eng.Spec.Funcs[FuncName(f.fn)+"."+par.Name()]; have != nil {
+					why := callbackSubsumes(want, have, want.ParamNames, have.ParamNames)
+					goal := "true"
+					if why != "" {
+						goal = "false"
+					}
+					vc.obligeIn(f, "callback", fmt.Sprintf("%s<=%s", key, FuncName(f.fn)+"."+par.Name()), in, goal, site.Pos(), "the function passed for "+key+" satisfies that parameter's contract"+why)
+				}
+			}
+			continue
+		}
+		have := vc.Eng.Spec.Funcs[FuncName(fn)]
+		why := ""
+		if have == nil {
+			why = ": " + FuncName(fn) + " has no contract"
+		} else {
+			var names []string
+			for _, fp := range fn.Params {
+				names = append(names, fp.Name())
+			}
+			why = callbackSubsumes(want, have, want.ParamNames, names)
+		}
+		goal := "true"
+		if why != "" {
+			goal = "false"
+		}
+		vc.obligeIn(f, "callback", fmt.Sprintf("%s<=%s", key, FuncName(fn)), in, goal, site.Pos(), "the function passed for "+key+" satisfies that parameter's contract"+why)
+	}
+}
+
+func normClause(text string, names []string) string {
+	t := " " + text + " "
+	for i, n := range names {
+		if n == "" {
+			continue
+		}
+		re := regexp.MustCompile(`\b` + regexp.QuoteMeta(n) + `\b`)
+		t = re.ReplaceAllString(t, fmt.Sprintf("$$%d", i))
+	}
+	return strings.Join(strings.Fields(t), " ")
+}
+
+func callbackSubsumes(want, have *FuncSpec, wantNames, haveNames []string) string {
+	haveEns := map[string]bool{}
+	for _, c := range have.Ensures {
+		haveEns[normClause(c.Text, haveNames)] = true
+	}
+	for _, c := range want.Ensures {
+		if !haveEns[normClause(c.Text, wantNames)] {
+			return ": no ensures clause '" + c.Text + "' in the contract of the function passed"
+		}
+	}
+	wantReq := map[string]bool{}
+	for _, c := range want.Requires {
+		wantReq[normClause(c.Text, wantNames)] = true
+	}
+	for _, c := range have.Requires {
+		if !wantReq[normClause(c.Text, haveNames)] {
+			return ": the function passed requires '" + c.Text + "', which the parameter contract does not guarantee"
+		}
+	}
+	if want.HasAssign && len(want.Assigns) == 0 && !(have.HasAssign && len(have.Assigns) == 0) {
+		return ": the parameter contract assigns nothing, the function passed does not promise that"
+	}
+	return ""
 }
